@@ -26,6 +26,37 @@ def tri(n):
     return n * (n + 1) // 2
 
 
+def held_checks(recs, W, k, names, nsteps, res, case, where=''):
+    """(1) per rank and layer: second-order bytes > 0 iff gradient worker; memory_usage() equals the bytes walked."""
+    for r in range(W):
+        for st in range(nsteps):
+            if recs[r]['held'][st] is None:
+                continue
+            total_rep = 0
+            for n in names:
+                h = recs[r]['held'][st][n]
+                held, rep = h['held'], h['reported']
+                second = sum(v for a, v in held.items() if a not in FACT + BATCH + ('_grad',))
+                isgw = recs[r]['assignment'][n]['is_grad_worker']
+                res.count('held_checks')
+                if (second > 0) != isgw:
+                    return res.violation(where + f'rank {r}, layer {n}, after step {st}: holds {second} bytes of second-order data {[a for a in held if a not in FACT + BATCH]} '
+                                         f'but is_grad_worker={isgw} (W={W}, k={k})', case, rank=r, layer=n)
+                fac = sum(held.get(a, 0) for a in FACT)
+                bat = sum(held.get(a, 0) for a in BATCH)
+                rep_fac = rep.get('a_factors', 0) + rep.get('g_factors', 0)
+                rep_bat = rep.get('a_batch', 0) + rep.get('g_batch', 0)
+                rep_inv = rep.get('a_inverses', 0) + rep.get('g_inverses', 0)
+                if (rep_fac, rep_bat, rep_inv) != (fac, bat, second):
+                    return res.violation(where + f'rank {r}, layer {n}, after step {st}: memory_usage reports factors/batch/second-order = {(rep_fac, rep_bat, rep_inv)} bytes, '
+                                         f'tensors actually held = {(fac, bat, second)} ({held})', case, rank=r, layer=n)
+                total_rep += sum(rep.values())
+            pm = recs[r]['mem'][st]
+            if pm.get('total') != total_rep or sum(v for kk, v in pm.items() if kk != 'total') != total_rep:
+                return res.violation(where + f'rank {r}, after step {st}: preconditioner.memory_usage() = {pm}, sum over layers = {total_rep}', case, rank=r)
+    return True
+
+
 def run_case(rng, res, idx, tier):
     from kfac.assignment import KAISAAssignment
     from kverif import kharness as kh, scenario, simdist
@@ -66,33 +97,8 @@ def run_case(rng, res, idx, tier):
     F, I = kh.mk(cfg['F']), kh.mk(cfg['I'])
     Fv = lambda s: F(s) if callable(F) else F  # noqa: E731
     Iv = lambda s: I(s) if callable(I) else I  # noqa: E731
-    # ---- (1) held tensors
-    for r in range(W):
-        for st in range(nsteps):
-            if recs[r]['held'][st] is None:
-                continue
-            total_rep = 0
-            for n in names:
-                h = recs[r]['held'][st][n]
-                held, rep = h['held'], h['reported']
-                second = sum(v for a, v in held.items() if a not in FACT + BATCH + ('_grad',))
-                isgw = recs[r]['assignment'][n]['is_grad_worker']
-                res.count('held_checks')
-                if (second > 0) != isgw:
-                    return res.violation(f'rank {r}, layer {n}, after step {st}: holds {second} bytes of second-order data {[a for a in held if a not in FACT + BATCH]} '
-                                         f'but is_grad_worker={isgw} (W={W}, k={k})', case, rank=r, layer=n)
-                fac = sum(held.get(a, 0) for a in FACT)
-                bat = sum(held.get(a, 0) for a in BATCH)
-                rep_fac = rep.get('a_factors', 0) + rep.get('g_factors', 0)
-                rep_bat = rep.get('a_batch', 0) + rep.get('g_batch', 0)
-                rep_inv = rep.get('a_inverses', 0) + rep.get('g_inverses', 0)
-                if (rep_fac, rep_bat, rep_inv) != (fac, bat, second):
-                    return res.violation(f'rank {r}, layer {n}, after step {st}: memory_usage reports factors/batch/second-order = {(rep_fac, rep_bat, rep_inv)} bytes, '
-                                         f'tensors actually held = {(fac, bat, second)} ({held})', case, rank=r, layer=n)
-                total_rep += sum(rep.values())
-            pm = recs[r]['mem'][st]
-            if pm.get('total') != total_rep or sum(v for kk, v in pm.items() if kk != 'total') != total_rep:
-                return res.violation(f'rank {r}, after step {st}: preconditioner.memory_usage() = {pm}, sum over layers = {total_rep}', case, rank=r)
+    if held_checks(recs, W, k, names, nsteps, res, case) is not True:
+        return
     # ---- (2) trace accounting
     cols = {n: frozenset(r for r in range(W) if recs[r]['assignment'][n]['is_grad_worker']) for n in names}
     rows = {frozenset(x) for x in KAISAAssignment.partition_grad_receivers(W, k)}
@@ -189,6 +195,20 @@ def run_case(rng, res, idx, tier):
             res.count('histories_with_restore')
     res.count('events', len(run.trace))
     res.add('schedules', run.schedule_hash())
+    if 1 < W <= 4 and idx % (24 if tier == 'quick' else 120) == 0:
+        # the same scenario as real gloo processes: placement of second-order data and the memory report on real ranks
+        import copy as _copy
+        from kverif import gloo_xval
+        gres, err = gloo_xval.run_gloo(_copy.deepcopy(spec), W)
+        if err is not None:
+            if 'rank failed' in str(err) and '/kfac/' in str(err):
+                return res.violation('real gloo world: a rank raised inside kfac: ' + str(err)[-300:], case)
+            res.count('real_gloo_unavailable')
+            res.skip('real gloo run unavailable: ' + str(err)[:40])
+        else:
+            res.count('real_gloo_worlds')
+            if held_checks([g['rec'] for g in gres], W, k, names, nsteps, res, case, where='real gloo world: ') is not True:
+                return
     res.sample(dict(idx=idx, W=W, k=k, steps=nsteps, cfg={kk: cfg[kk] for kk in ('method', 'prediv', 'sym', 'colocate', 'F', 'I', 'cap', 'hook')}))
 
 
